@@ -111,6 +111,8 @@ def run_dist(case, R):
             lp = np.asarray(m.log_pdf(x[idx] if fam not in ('watson', 'bingham') else oracles.unit(x[idx])))
             slices[idx] = (m, lp)
         except Exception as e:
+            if not instr.is_library_exception(e):
+                raise
             slices[idx] = e
     if any(isinstance(v, Exception) for v in slices.values()):
         R.count(f'{fam}: a slice alone raised')
@@ -119,6 +121,8 @@ def run_dist(case, R):
     try:
         M = fit(y, sal)
     except Exception as e:
+        if not instr.is_library_exception(e):
+            raise
         R.fail('C06.dist-fit', f'stacked-raised/{fam}/fit', f'{fam} trainer raised {type(e).__name__} on a stack {lead} although every slice alone succeeds: {str(e)[:120]}', lead=list(lead), D=D)
         return
     F = diff.functionals(M)
@@ -138,6 +142,8 @@ def run_dist(case, R):
     try:
         LP = np.asarray(M.log_pdf(x if fam not in ('watson', 'bingham') else oracles.unit(x)))
     except Exception as e:
+        if not instr.is_library_exception(e):
+            raise
         R.fail('C06.dist-logpdf', f'stacked-raised/{fam}/log_pdf', f'{fam}.log_pdf raised {type(e).__name__} on a stack {lead} although every slice alone succeeds: {str(e)[:120]}', lead=list(lead), D=D)
         return
     ok = LP.shape == (*lead, 5)
@@ -185,6 +191,8 @@ def run_mixture(case, R):
         try:
             outs[idx] = run(dict(y=s.data['y'][idx]), init_full[idx], None if s.saliency is None else s.saliency[idx], None if s.mask is None else s.mask[idx])
         except Exception as e:
+            if not instr.is_library_exception(e):
+                raise
             outs[idx] = e
     if any(isinstance(v, Exception) for v in outs.values()):
         R.count(f'{kind}: a slice alone raised')
@@ -194,6 +202,8 @@ def run_mixture(case, R):
     try:
         M, P = run(s.data, s.init, s.saliency, s.mask)
     except Exception as e:
+        if not instr.is_library_exception(e):
+            raise
         R.fail(mon, f'stacked-raised/{kind}', f'{kind} raised {type(e).__name__} on a stack {lead} although every slice alone succeeds: {str(e)[:120]}', lead=list(lead), opts=case['opts'])
         return
 
